@@ -16,12 +16,15 @@ HARNESSES = [{"name": "c18_impl"}]
 META = {
     "category": "proof",
     "technique": "Coq proof (induction over frame lists / op histories) + differential correspondence with the C++",
-    "text": "Eight Coq theorems over an executable model of WebSocketFrame::parse/serialize/isValidUtf8 and the server/client "
-            "frame loop: round trip for every well-formed frame with any trailing bytes, parse bounds/progress, strict prefixes "
-            "are incomplete, segmentation independence for every cut of every stream of well-formed frames (server and client), "
-            "reassembly with interleaved control frames, server never sends data after close (all histories); two refuted "
-            "statements with witnesses (client data-after-close, unbounded buffering) are recorded as known findings. The model "
-            "is tied to the code by running the extracted model and the real classes on the same generated cases every run.",
+    "text": "Nine Coq theorems over an executable model of WebSocketFrame::parse/serialize/checkHeader/isValidUtf8 and the "
+            "server/client frame loop: round trip for every well-formed frame with any trailing bytes, parse bounds/progress, "
+            "strict prefixes are incomplete, segmentation independence for every cut of every stream of well-formed frames "
+            "within the size limit (server and client), reassembly with interleaved control frames, no data frame after a "
+            "close frame (server and client, all histories of reads and application sends), bounded buffering (server and "
+            "client, ALL byte streams and cuts: unparsed bytes < 14 + max(limit,125), fragments <= limit), hostile headers "
+            "fail the connection at once. The last two were refuted on the code as found (C18-F1b1/F1b2/F1b3/F1c1/F1c2) and "
+            "hold since the repairs. The model is tied to the code by running the extracted model and the real classes on "
+            "the same generated cases every run.",
     "design_ref": "DESIGN.md §7 C18",
     "note": "Trusted: Coq kernel; extraction (ExtrOcamlBasic) + OCaml; harness/c18_impl.cpp (recording engine replaces the "
             "transport; private members reached with #define private public); generator tools/props/c18.py. Modelled not "
@@ -141,22 +144,32 @@ def stream_of(rng, frames, masked):
 
 
 def expected_events(role, maxsz, frames):
-    """independent oracle for a VALID stream (reassembly, pongs, utf-8, close echo)"""
+    """independent oracle for a VALID stream (reassembly, pongs, utf-8, close echo, size limit)"""
     evs = []
     frag, fragop = b"", 0
-    alive, close_sent = True, False
+    alive = True
+    close_sent = False      # server closeSent / client _closeSent
+    echoed = False          # client _closeEchoed
+    too_big = "s:18:" + hx((1009).to_bytes(2, "big") + b"Message Too Big")
     for fin, op, p in frames:
+        if not alive:
+            break
+        if op not in (8, 9, 10) and len(p) > maxsz:
+            # refused as soon as the header is known: the connection is failed, nothing more is read
+            if not close_sent:
+                evs.append(too_big)
+            evs += ["e", "c:1009:" + hx(b"Message Too Big")] + (["k"] if role == "S" else [])
+            alive = False
+            break
         if op in (0, 1, 2):
-            if role == "S" and not alive:
-                continue
             if op in (1, 2):
                 frag, fragop = p, op
             else:
                 frag += p
-            if role == "S" and len(frag) > maxsz:
-                evs.append("s:18:" + hx((1009).to_bytes(2, "big") + b"Message Too Big"))
-                evs.append("e")
+            if len(frag) > maxsz:
+                evs += [too_big, "e"]
                 close_sent = True
+                frag, fragop = b"", 0
                 continue
             if fin:
                 if fragop == 1:
@@ -172,9 +185,10 @@ def expected_events(role, maxsz, frames):
             evs.append("s:110:" + hx(p))
         elif op == 8:
             code, reason = (int.from_bytes(p[:2], "big"), p[2:]) if len(p) >= 2 else (1005, b"")
-            if not close_sent and (alive or role == "C"):
+            if (role == "S" and not close_sent) or (role == "C" and not echoed):
                 evs.append("s:18:" + hx(code.to_bytes(2, "big") + reason))
                 close_sent = True
+                echoed = True
             evs.append("c:%d:%s" % (code, hx(reason)))
             if role == "S":
                 evs.append("k")
@@ -294,9 +308,13 @@ def build_cases(ctx):
         msgs = gen_messages(rng, big=big)
         with_close = rng.random() < 0.5
         frames = frames_of(rng, msgs, role == "S", with_close)
-        maxsz = rng.choice([16, 64, 300, 1 << 20]) if role == "S" else 0
+        maxsz = rng.choice([16, 64, 300, 1 << 20])
         if big:
             maxsz = 1 << 20
+        elif rng.random() < 0.35:
+            # the limit sits exactly at (or one below) the largest frame payload / the largest message
+            sizes = [len(p) for _, op, p in frames if op not in (8, 9, 10)] + [len(m[1]) for m in msgs]
+            maxsz = max(0, max(sizes) - rng.choice([0, 0, 1]))
         stream = stream_of(rng, frames, masked=(role == "S"))
         exp = expected_events(role, maxsz, frames)
         gid = "s%d" % si
@@ -356,6 +374,13 @@ def build_cases(ctx):
             hdr = rng.choice([bytes([0x89, 0x7E, 0, 200]), bytes([0x09, 0x85]) + rand_bytes(rng, 4),
                               bytes([0x88, 0x7F]) + (300).to_bytes(8, "big")])
             chunks = [hdr] + [rand_bytes(rng, rng.randint(20, 200)) for _ in range(rng.randint(1, 4))]
+        elif r < 0.55:  # fragments within the limit that never end (no FIN): the fragment buffer must stay bounded
+            n = rng.randint(3, 12)
+            fr = [(False, 2 if i == 0 or rng.random() < 0.1 else 0, rand_bytes(rng, rng.randint(1, maxsz))) for i in range(n)]
+            if rng.random() < 0.3:
+                fr.append((True, 9, rand_bytes(rng, 3)))
+            st = stream_of(rng, fr, masked=(role == "S"))
+            chunks = split_at(st, [rng.randint(1, max(1, len(st) - 1)) for _ in range(rng.randint(0, 3))])
         else:           # mutated valid stream
             frames = frames_of(rng, gen_messages(rng), role == "S", rng.random() < 0.5)
             st = bytearray(stream_of(rng, frames, masked=(role == "S")))
@@ -378,7 +403,7 @@ def parse_R(line):
     else:
         return None
     kv = dict(x.split("=", 1) for x in tail.split())
-    return [e for e in evs.split(" ") if e], int(kv.get("buf", 0)), kv.get("head", "-"), kv.get("alive", "0")
+    return [e for e in evs.split(" ") if e], int(kv.get("buf", 0)), kv.get("head", "-"), kv.get("alive", "0"), int(kv.get("frag", 0))
 
 
 def ndac(events):
@@ -452,7 +477,7 @@ def evaluate(ctx, v, cases, impl, model):
             if pr is None:
                 v.property_failure("impl-output", "unparsable harness output", line, ri)
                 continue
-            evs, buf, head, alive = pr
+            evs, buf, head, alive, frag = pr
             role = line.split(" ")[1]
             maxsz = int(line.split(" ")[2])
             if not ndac(evs):
@@ -460,15 +485,22 @@ def evaluate(ctx, v, cases, impl, model):
                                    "a data frame was sent after a close frame", line, "events=" + " ".join(evs)[:400])
                 failed_here = True
             ctl_err, declared = head_info(head)
-            if role == "S" and buf > maxsz + MASK_HDR_MAX:
-                sig = "server-buffers-after-protocol-error" if ctl_err else "server-buffers-oversize-declared-frame"
-                v.property_failure(sig, "server keeps %d bytes buffered with maxFrameSize=%d" % (buf, maxsz), line,
-                                   "head=%s" % head)
+            # theorem ws_buffers_bounded: fewer than one maximal header plus one acceptable payload wait in the buffer,
+            # and the fragments collected for a message stay within the limit - in both roles
+            if buf >= MASK_HDR_MAX + max(maxsz, 125):
+                if role == "S":
+                    sig = "server-buffers-after-protocol-error" if ctl_err else "server-buffers-oversize-declared-frame"
+                    v.property_failure(sig, "server keeps %d bytes buffered with maxFrameSize=%d" % (buf, maxsz), line,
+                                       "head=%s" % head)
+                else:
+                    v.property_failure("client-buffers-without-limit",
+                                       "client keeps %d bytes buffered behind a header it can never complete / beyond its "
+                                       "message size limit %d" % (buf, maxsz), line, "head=%s" % head)
                 failed_here = True
-            if role == "C" and buf > MASK_HDR_MAX and (ctl_err or (declared is not None and declared >= 2 ** 32)):
-                v.property_failure("client-buffers-without-limit",
-                                   "client keeps buffering (%d bytes) behind a header it can never complete" % buf,
-                                   line, "head=%s" % head)
+            if frag > maxsz:
+                v.property_failure("%s-fragment-buffer-unbounded" % ("server" if role == "S" else "client"),
+                                   "%d bytes of fragments are kept for a message although the limit is %d (a peer that never "
+                                   "sends FIN makes the buffer grow without bound)" % (frag, maxsz), line, ri[-200:])
                 failed_here = True
             if k == "stream":
                 g = groups.setdefault(meta["group"], {"whole": None, "lines": []})
@@ -511,9 +543,15 @@ def evaluate(ctx, v, cases, impl, model):
 
 
 def witness_cases():
-    """fixed witnesses of the known findings; always run (they decide the KNOWN-FINDING lines)"""
+    """fixed witnesses of the findings C18-F1b1/F1b2/F1b3/F1c1/F1c2 (all repaired); always run"""
     big = bytes([0x82, 0xFF]) + (2 ** 62).to_bytes(8, "big") + b"\x01\x02\x03\x04"
+    nofin = b"".join(ser(False, 2 if i == 0 else 0, True, b"\x01\x02\x03\x04", b"\x07" * 12) for i in range(8))
+    nofin_c = b"".join(ser(False, 2 if i == 0 else 0, False, b"\x00\x00\x00\x00", b"\x07" * 12) for i in range(8))
     return [
+        ("R S 16 F:%s" % hx(nofin), {"kind": "hostile", "role": "S", "maxsz": 16}),
+        ("R C 16 F:%s" % hx(nofin_c), {"kind": "hostile", "role": "C", "maxsz": 16}),
+        ("R C 16 F:%s;F:%s" % (hx(bytes([0x89, 0x7E, 0, 200])), hx(b"\x07" * 200)), {"kind": "hostile", "role": "C", "maxsz": 16}),
+        ("R C 100 X:1000:-;T:6869;G:01", {"kind": "history", "role": "C", "maxsz": 100}),
         ("R C 100 X:1000:-;T:6869", {"kind": "history", "role": "C", "maxsz": 100}),
         ("R S 16 F:%s;F:%s" % (hx(big), hx(b"\x07" * 200)), {"kind": "hostile", "role": "S", "maxsz": 16}),
         ("R S 16 F:%s;F:%s" % (hx(bytes([0x89, 0xFE, 0, 200])), hx(b"\x07" * 200)), {"kind": "hostile", "role": "S", "maxsz": 16}),
